@@ -200,10 +200,15 @@ def compile_closure_with_globals_capturing(
     builder = CodeBuilder()
 
     global_namespace_dict = {}
+    # names of the namespace become local variables of the maker, so a global must not be named like any of them
+    taken_names = set(namespace)
     for name, value in namespace.items():
         value_literal = get_literal_expr(value)
         if value_literal is None:
             global_name = f"g_{name}"
+            while global_name in taken_names:
+                global_name = f"g_{global_name}"
+            taken_names.add(global_name)
             global_namespace_dict[global_name] = value
             builder += f"{name} = {global_name}"
         else:
